@@ -331,20 +331,31 @@ theorem umremove_fst (c : Ctx) (kw : Nat) (e : Shape) (b : Nat) (k : List Nat) (
 set_option linter.unusedSimpArgs false in
 theorem applyAtT_fst (c : Ctx) (t : Shape) (b : Nat) (op : Op) (m : Mem) :
     (applyAtT c t b op m).1 = applyAt c t b op m := by
-  cases op <;> cases t <;> first
-    | exact sinsert_fst ..
-    | exact minsert_fst ..
-    | exact umremove_fst ..
-    | (simp only [applyAtT]; done)
-    | (simp only [applyAtT, applyAt, unitResT_fst, setDataInnerT_fst, listInsertAllT_fst,
-        listRemoveRangeT_fst, listPopT_fst, listClearT_fst, setRemoveT_fst, setInsertAllT_fst,
-        mapRemoveT_fst, mapInsertAllT_fst, strSetT_fst, remSetLenT_fst, ulistInsertT_fst,
-        ulistRemoveRangeT_fst, ulistPopT_fst, ulistClearT_fst, umapInsertT_fst]; done)
-    | (simp only [applyAtT, applyAt]
-       split <;> simp only [unitResT_fst, setDataInnerT_fst, listInsertAllT_fst,
-        listRemoveRangeT_fst, listPopT_fst, listClearT_fst, setRemoveT_fst, setInsertAllT_fst,
-        mapRemoveT_fst, mapInsertAllT_fst, strSetT_fst, remSetLenT_fst, ulistInsertT_fst,
-        ulistRemoveRangeT_fst, ulistPopT_fst, ulistClearT_fst, umapInsertT_fst])
+  cases op with
+  | sinsert x =>
+    cases t with
+    | set e lw => exact sinsert_fst ..
+    | _ => simp only [applyAtT]
+  | minsert k x =>
+    cases t with
+    | map kw v lw => exact minsert_fst ..
+    | _ => simp only [applyAtT]
+  | umremove k =>
+    cases t with
+    | umap kw e => exact umremove_fst ..
+    | _ => simp only [applyAtT]
+  | _ =>
+    cases t <;> first
+      | (simp only [applyAtT]; done)
+      | (simp only [applyAtT, applyAt, unitResT_fst, setDataInnerT_fst, listInsertAllT_fst,
+          listRemoveRangeT_fst, listPopT_fst, listClearT_fst, setRemoveT_fst, setInsertAllT_fst,
+          mapRemoveT_fst, mapInsertAllT_fst, strSetT_fst, remSetLenT_fst, ulistInsertT_fst,
+          ulistRemoveRangeT_fst, ulistPopT_fst, ulistClearT_fst, umapInsertT_fst]; done)
+      | (simp only [applyAtT, applyAt]
+         split <;> simp only [unitResT_fst, setDataInnerT_fst, listInsertAllT_fst,
+          listRemoveRangeT_fst, listPopT_fst, listClearT_fst, setRemoveT_fst, setInsertAllT_fst,
+          mapRemoveT_fst, mapInsertAllT_fst, strSetT_fst, remSetLenT_fst, ulistInsertT_fst,
+          ulistRemoveRangeT_fst, ulistPopT_fst, ulistClearT_fst, umapInsertT_fst])
 
 theorem applyOpT_fst (s : Shape) (abs : List Step) (op : Op) (m : Mem) :
     (applyOpT s abs op m).1 = applyOp s abs op m := by
